@@ -997,6 +997,8 @@ where
 
         // Aggregate potential victims.
         while victims.policy_weight < candidate.policy_weight {
+            #[cfg(mini_moka_verif)]
+            crate::verif::switch(crate::verif::Point::MaintenanceLoopIter);
             if candidate.freq < victims.freq {
                 break;
             }
